@@ -60,12 +60,15 @@ func Run(ctx *vrun.Ctx, prop string) error {
 		models = []ModelCfg{
 			{Name: "crash3", N: 3, Works: "{1,2}", Flaws: `{"connect"}`, Flush: true, Graph: true, MaxPaths: 250, Crash: true},
 			{Name: "crash4", N: 4, Works: "{1}", Flaws: `{}`, Graph: true, MaxPaths: 120, Crash: true, Nested: true},
+			{Name: "crash3prune", N: 3, Works: "{1}", Flaws: `{}`, Flush: true, Graph: true, MaxPaths: 80, Crash: true, Prune: true},
 		}
 		if ctx.Thorough {
 			models = []ModelCfg{
 				{Name: "crash3", N: 3, Works: "{1,2}", Flaws: `{"connect"}`, Flush: true, Graph: true, MaxPaths: 4000, Crash: true, Nested: true},
 				{Name: "crash4", N: 4, Works: "{1,2}", Flaws: `{"connect"}`, Graph: true, MaxPaths: 3000, Crash: true, Nested: true},
 				{Name: "crash4f", N: 4, Works: "{1}", Flaws: `{}`, Flush: true, Graph: true, MaxPaths: 2000, Crash: true},
+				{Name: "crash3prune", N: 3, Works: "{1,2}", Flaws: `{"connect"}`, Flush: true, Graph: true, MaxPaths: 1500, Crash: true, Prune: true},
+				{Name: "crash4prune", N: 4, Works: "{1}", Flaws: `{}`, Graph: true, MaxPaths: 800, Crash: true, Nested: true, Prune: true},
 			}
 		}
 	case "C17":
